@@ -1,6 +1,7 @@
 package codec
 
 import (
+	"strings"
 	"fmt"
 	"go/token"
 	"go/types"
@@ -12,6 +13,10 @@ import (
 
 // Seq reads off the layout of the byte sequence held by value v.
 func (e *Ext) Seq(v ssa.Value) []Atom {
+	return mergeLanes(e.seq0(v))
+}
+
+func (e *Ext) seq0(v ssa.Value) []Atom {
 	e.depth++
 	defer func() { e.depth-- }()
 	if e.depth > 200 {
@@ -55,6 +60,9 @@ func (e *Ext) Seq(v ssa.Value) []Atom {
 	case *ssa.Phi:
 		return e.seqPhi(x)
 	case *ssa.Parameter:
+		if a, ok := e.bind[x]; ok && e.parent != nil {
+			return e.parent.Seq(a)
+		}
 		return []Atom{{Kind: "bytes", Expr: "param " + x.Name(), Pos: x.Pos()}}
 	}
 	return []Atom{{Kind: "unknown", Expr: e.exprString(v, 0), Pos: v.Pos()}}
@@ -74,6 +82,25 @@ func (e *Ext) seqProducer(call *ssa.Call, pos token.Pos) []Atom {
 		short = f.Name()
 		if f.Signature.Recv() != nil {
 			short = types.TypeString(deref(f.Signature.Recv().Type()), shortQ) + "." + f.Name()
+		}
+	}
+	// a method of the receiver's own type called on the receiver itself, with no
+	// other argument, returning the bytes (p.GetBytesStream() inside p.Marshal()):
+	// the same object's fields are emitted there — read that method in place
+	if f := cc.StaticCallee(); f != nil && !cc.IsInvoke() && e.Recv != nil && f != e.Fn && f.Blocks != nil && e.inlineDepth < 3 &&
+		f.Signature.Recv() != nil && len(cc.Args) == 1 && cc.Args[0] == ssa.Value(e.Recv) &&
+		types.Identical(f.Signature.Recv().Type(), e.Fn.Signature.Recv().Type()) {
+		if sub := e.seqSameReceiver(f); sub != nil {
+			return sub
+		}
+	}
+	// a plain in-module function fed integers / byte strings by this encoder
+	// (marshalRange(uint16(c.FID), uint32(c.Count), …)): read it with its
+	// parameters bound to the arguments
+	if f := cc.StaticCallee(); f != nil && !cc.IsInvoke() && f.Blocks != nil && f.Signature.Recv() == nil && e.inlineDepth < 3 &&
+		f.Pkg != nil && e.Fn.Pkg != nil && strings.HasPrefix(f.Pkg.Pkg.Path(), modulePrefix(e.Fn.Pkg.Pkg.Path())) && plainParams(f) {
+		if sub := e.seqInlined(f, cc.Args); sub != nil {
+			return sub
 		}
 	}
 	a := Atom{Kind: "nested", Type: short, Pos: pos, Callee: cc.StaticCallee()}
@@ -135,6 +162,34 @@ func tstr(t types.Type) string {
 // seqSlice: a slice expression over an array literal (varargs / slice literal)
 // or a sub-slice of another sequence.
 func (e *Ext) seqSlice(x *ssa.Slice) []Atom {
+	// block := T{…}; block[:] — the literal is built in a temporary and copied
+	// whole into the variable: read the temporary
+	if al, ok := x.X.(*ssa.Alloc); ok && al.Referrers() != nil {
+		if _, isArr := deref(al.Type()).Underlying().(*types.Array); isArr {
+			var tmp *ssa.Alloc
+			nStore, elemWrites := 0, false
+			for _, r := range *al.Referrers() {
+				switch y := r.(type) {
+				case *ssa.Store:
+					if y.Addr == ssa.Value(al) {
+						nStore++
+						if ld, isLd := y.Val.(*ssa.UnOp); isLd && ld.Op == token.MUL {
+							if t, isA := ld.X.(*ssa.Alloc); isA {
+								tmp = t
+							}
+						}
+					}
+				case *ssa.IndexAddr:
+					elemWrites = true
+				}
+			}
+			if nStore == 1 && tmp != nil && !elemWrites && len(*al.Referrers()) == 2 {
+				y := *x
+				_ = y
+				return e.seqArrayLiteral(tmp, x)
+			}
+		}
+	}
 	if al, ok := x.X.(*ssa.Alloc); ok && al.Comment == "makeslice" && x.Low == nil {
 		if arr, ok := deref(al.Type()).Underlying().(*types.Array); ok {
 			if x.High == nil {
@@ -250,6 +305,16 @@ func (e *Ext) seqSlice(x *ssa.Slice) []Atom {
 
 // byteAtom classifies one byte value placed on the wire.
 func (e *Ext) byteAtom(v ssa.Value, pos token.Pos) Atom {
+	if src, lane, n, ok := byteLane(v); ok {
+		f, ex, ft := e.ValueSrc(src)
+		// go/ssa reloads a field at every use: loads with no possible write in between are one value
+		if ld, isLd := src.(*ssa.UnOp); isLd && ld.Op == token.MUL {
+			src = e.FI.LoadRep(ld)
+		}
+		if !(f == "" && len(ex) > 6 && ex[:6] == "const ") {
+			return Atom{Kind: "fixed", Width: 1, Field: f, Expr: ex, Type: tstr(ft), Pos: pos, LaneOf: src, Lane: lane, SrcBytes: n}
+		}
+	}
 	f, ex, ft := e.ValueSrc(v)
 	if f == "" && len(ex) > 6 && ex[:6] == "const " {
 		return Atom{Kind: "const", Width: 1, Expr: ex[6:], Pos: pos}
@@ -618,7 +683,7 @@ func (e *Ext) rangedOver(hb *ssa.BasicBlock) string {
 // mergeByteLanes merges consecutive single-byte atoms that are manual shifts
 // of one field into one fixed atom with the byte order they imply.
 func mergeByteLanes(as []Atom) []Atom {
-	return as
+	return mergeLanes(as)
 }
 
 func elemWidth(t types.Type) int {
@@ -661,4 +726,253 @@ func (e *Ext) localCopyOf(v ssa.Value) (string, bool) {
 		return f, true
 	}
 	return "", false
+}
+
+// seqSameReceiver: the byte sequence a method of the same receiver returns (one
+// success return whose first result is the bytes); nil when it has another shape.
+func (e *Ext) seqSameReceiver(f *ssa.Function) []Atom {
+	res := f.Signature.Results()
+	if res.Len() < 1 || res.Len() > 2 || !isByteSlice(res.At(0).Type()) {
+		return nil
+	}
+	var rets []*ssa.Return
+	for _, b := range f.Blocks {
+		if r, ok := b.Instrs[len(b.Instrs)-1].(*ssa.Return); ok {
+			if res.Len() == 2 {
+				if k, isK := r.Results[1].(*ssa.Const); !isK || k.Value != nil {
+					continue // error return
+				}
+			}
+			rets = append(rets, r)
+		}
+	}
+	if len(rets) != 1 {
+		return nil
+	}
+	sub := NewExt(e.W, f)
+	sub.inlineDepth = e.inlineDepth + 1
+	if sub.Incomplete() != "" {
+		return nil
+	}
+	out := sub.Seq(rets[0].Results[0])
+	for _, a := range out {
+		if a.Kind == "unknown" {
+			return nil
+		}
+	}
+	return out
+}
+
+func isByteSlice(t types.Type) bool {
+	sl, ok := t.Underlying().(*types.Slice)
+	if !ok {
+		return false
+	}
+	b, ok := sl.Elem().Underlying().(*types.Basic)
+	return ok && b.Kind() == types.Uint8
+}
+
+// byteLane: v is one byte of a wider unsigned integer: uint8(x >> 8k),
+// uint8(x>>8k & 0xFF), uint8(x & 0xFF), uint8(x). Returns x, k and the width of
+// x in bytes.
+func byteLane(v ssa.Value) (src ssa.Value, lane, srcBytes int, ok bool) {
+	cv, isC := v.(*ssa.Convert)
+	if !isC || elemWidth(cv.Type()) != 1 {
+		// a byte-typed expression without conversion: (x >> 8k) on a byte is lane 0 of a byte — nothing to merge
+		return nil, 0, 0, false
+	}
+	x := cv.X
+	w := elemWidth(x.Type())
+	if w < 2 || w > 8 {
+		return nil, 0, 0, false
+	}
+	if bt, okb := x.Type().Underlying().(*types.Basic); !okb || bt.Info()&types.IsInteger == 0 {
+		return nil, 0, 0, false
+	}
+	// strip & 0xFF (or a wider all-ones-in-the-low-byte mask)
+	if bo, isB := x.(*ssa.BinOp); isB && bo.Op == token.AND {
+		if k, isK := constI(bo.Y); isK && k&0xFF == 0xFF {
+			x = bo.X
+		} else if k, isK := constI(bo.X); isK && k&0xFF == 0xFF {
+			x = bo.Y
+		}
+	}
+	if bo, isB := x.(*ssa.BinOp); isB && bo.Op == token.SHR {
+		if k, isK := constI(bo.Y); isK && k%8 == 0 && k >= 0 && int(k/8) < w {
+			// intermediate conversions between integer types of the same or greater width keep the lanes
+			return stripWiden(bo.X), int(k / 8), widthOf(stripWiden(bo.X), w), true
+		}
+		return nil, 0, 0, false
+	}
+	return stripWiden(x), 0, widthOf(stripWiden(x), w), true
+}
+
+// stripWiden removes widening integer conversions (uint32(u16)): lanes of the
+// narrower value are lanes of the wider one.
+func stripWiden(v ssa.Value) ssa.Value {
+	for {
+		cv, ok := v.(*ssa.Convert)
+		if !ok {
+			return v
+		}
+		from, to := elemWidth(cv.X.Type()), elemWidth(cv.Type())
+		fb, okf := cv.X.Type().Underlying().(*types.Basic)
+		if !okf || fb.Info()&types.IsInteger == 0 || from == 0 || from > to {
+			return v
+		}
+		if fb.Info()&types.IsUnsigned == 0 && from < to {
+			return v // sign extension changes the upper lanes
+		}
+		v = cv.X
+	}
+}
+
+func widthOf(v ssa.Value, dflt int) int {
+	if w := elemWidth(v.Type()); w > 0 {
+		return w
+	}
+	return dflt
+}
+
+// mergeLanes replaces a run of single-byte atoms that are ALL the lanes of one
+// integer, in ascending (LE) or descending (BE) order, by one fixed atom.
+func mergeLanes(as []Atom) []Atom {
+	var out []Atom
+	for i := 0; i < len(as); {
+		a := as[i]
+		if a.Kind == "repeat" || a.Kind == "cond" {
+			a.Body = mergeLanes(a.Body)
+		}
+		if a.LaneOf != nil && a.SrcBytes >= 2 && i+a.SrcBytes <= len(as) {
+			n := a.SrcBytes
+			asc, desc := true, true
+			for j := 0; j < n; j++ {
+				b := as[i+j]
+				if b.LaneOf != a.LaneOf || b.Width != 1 || b.Cond != a.Cond {
+					asc, desc = false, false
+					break
+				}
+				if b.Lane != j {
+					asc = false
+				}
+				if b.Lane != n-1-j {
+					desc = false
+				}
+			}
+			if asc || desc {
+				m := a
+				m.Width, m.LaneOf, m.Lane, m.SrcBytes = n, nil, 0, 0
+				m.Order = "LE"
+				if desc {
+					m.Order = "BE"
+				}
+				out = append(out, m)
+				i += n
+				continue
+			}
+		}
+		out = append(out, a)
+		i++
+	}
+	return out
+}
+
+// seqArrayLiteral: the bytes of an array composite literal held in al (element
+// stores at constant indexes; unset elements are zero).
+func (e *Ext) seqArrayLiteral(al *ssa.Alloc, x *ssa.Slice) []Atom {
+	arr, ok := deref(al.Type()).Underlying().(*types.Array)
+	if !ok || elemWidth(arr.Elem()) != 1 || x.Low != nil || x.High != nil {
+		return []Atom{{Kind: "unknown", Expr: "slice of a copied array literal", Pos: x.Pos()}}
+	}
+	n := int(arr.Len())
+	elems := make([]Atom, n)
+	for i := range elems {
+		elems[i] = Atom{Kind: "const", Width: 1, Expr: "0"}
+	}
+	for _, r := range *al.Referrers() {
+		ia, ok := r.(*ssa.IndexAddr)
+		if !ok {
+			continue
+		}
+		idx, isK := constI(ia.Index)
+		if !isK || idx < 0 || int(idx) >= n {
+			return []Atom{{Kind: "unknown", Expr: "array literal with variable index", Pos: x.Pos()}}
+		}
+		for _, rr := range *ia.Referrers() {
+			if st, ok := rr.(*ssa.Store); ok && st.Addr == ssa.Value(ia) {
+				elems[idx] = e.byteAtom(st.Val, st.Pos())
+			}
+		}
+	}
+	return mergeLanes(elems)
+}
+
+// plainParams: every parameter is an integer, a bool, a string or a byte slice.
+func plainParams(f *ssa.Function) bool {
+	if len(f.Params) == 0 {
+		return false
+	}
+	for _, q := range f.Params {
+		switch t := q.Type().Underlying().(type) {
+		case *types.Basic:
+			if t.Info()&(types.IsInteger|types.IsBoolean|types.IsString) == 0 {
+				return false
+			}
+		case *types.Slice:
+			if !isByteSlice(t) {
+				return false
+			}
+		default:
+			return false
+		}
+	}
+	return true
+}
+
+// seqInlined: the bytes a plain function returns, with its parameters standing
+// for the caller's arguments; nil when the function has another shape.
+func (e *Ext) seqInlined(f *ssa.Function, args []ssa.Value) []Atom {
+	res := f.Signature.Results()
+	if res.Len() < 1 || res.Len() > 2 || !isByteSlice(res.At(0).Type()) || len(args) != len(f.Params) {
+		return nil
+	}
+	var rets []*ssa.Return
+	for _, b := range f.Blocks {
+		if r, ok := b.Instrs[len(b.Instrs)-1].(*ssa.Return); ok {
+			if res.Len() == 2 {
+				if k, isK := r.Results[1].(*ssa.Const); !isK || k.Value != nil {
+					continue
+				}
+			}
+			rets = append(rets, r)
+		}
+	}
+	if len(rets) != 1 {
+		return nil
+	}
+	sub := NewExt(e.W, f)
+	sub.inlineDepth = e.inlineDepth + 1
+	sub.parent = e
+	sub.bind = map[*ssa.Parameter]ssa.Value{}
+	for i, q := range f.Params {
+		sub.bind[q] = args[i]
+	}
+	out := sub.Seq(rets[0].Results[0])
+	for _, a := range flattenAtoms(out) {
+		if a.Kind == "unknown" || ((a.Kind == "fixed" || a.Kind == "bytes") && a.Field == "" && strings.HasPrefix(a.Expr, "param ")) {
+			return nil
+		}
+	}
+	return out
+}
+
+func flattenAtoms(as []Atom) []Atom {
+	var out []Atom
+	for _, a := range as {
+		out = append(out, a)
+		if len(a.Body) > 0 {
+			out = append(out, flattenAtoms(a.Body)...)
+		}
+	}
+	return out
 }
